@@ -124,10 +124,12 @@ def text_of(entries, event, params, coupling_offset=0):
 
 
 def reset_state():
+    # the reader keeps process-wide sets and a switch on its classes (finding F8, property C20 - not claimed here): every class gets
+    # fresh ones, otherwise particles of files read earlier in the worker leak into the headers of later outputs
     for cls in (AmplitudeChain, GooFitChain, GooFitPyChain):
         cls.cartesian = False
-    AmplitudeChain.all_particles = set()
-    AmplitudeChain.final_particles = set()
+        cls.all_particles = set()
+        cls.final_particles = set()
 
 
 def check_amplitude_code(code, entry, event, lang):
